@@ -16,7 +16,7 @@ ASSUMPTIONS = ["half of the histories run with the package logger at DEBUG (stop
                "'live' is read as 'not stopped' (the delayed-based reading is false by design: pruning re-postpones an expanded parent)",
                "widen only with a width already set and not below it; continue_with_distance only after an early stop with edge states"]
 TOLERANCES = {"logprob": 1e-12}
-BUDGET = {"quick": {"shards": 8, "examples": 500}, "thorough": {"shards": 16, "examples": 9000}}
+BUDGET = {"quick": {"shards": 8, "examples": 900}, "thorough": {"shards": 16, "examples": 9000}}
 FUZZ = {"thorough": {"runs": 15000, "seed_inputs": 16, "max_len": 4096,
                      "include": ("leuvenmapmatching.matcher", "leuvenmapmatching.util", "leuvenmapmatching.map")}}
 
